@@ -268,21 +268,30 @@ class Driver:
         return lines
 
 
-PLUGIN_MODEL_CFGS = ["only-table", "only-footnotes", "only-task_lists", "only-def_list", "only-abbr"]
+PLUGIN_MODEL_CFGS = ["only-table", "only-footnotes", "only-task_lists", "only-def_list", "only-abbr", "only-strikethrough", "only-mark", "only-insert", "only-superscript",
+                     "only-subscript", "only-url", "only-math", "only-ruby", "only-spoiler", "only-speedup", "preset", "all", "all-speedup", "all-noescape-hardwrap"]
 
 
 def plugin_model_tie(ctx, n_each, cfgs=None, extra_docs=None):
-    """Correspondence of the concrete Lean parser model on the PLUGIN configurations it transcribes (table, footnotes with the
-    footnotes hook, task_lists hook, def_list, abbr): documents made of the plugins' own syntax (gen.md_plugins) mixed with
-    ordinary ones, full token trees of md(s) with renderer=None."""
-    import gen
+    """Correspondence of the concrete Lean parser model on the PLUGIN configurations (every plugin of mistune is transcribed: block handlers,
+    inline handlers, hooks; only directives and the TOC hook are not): documents made of the plugins' own syntax (corr_model.inputs mixes
+    gen.md_plugins / gen.md_inline_plugins with the stock generators according to the configuration), full token trees of md(s) with renderer=None."""
+    import corr_model
     total = 0
-    for name in (cfgs or PLUGIN_MODEL_CFGS):
-        plug = name.split("-", 1)[1]
-        docs = [gen.md_plugins(ctx.rng, [plug]) if ctx.rng.random() < 0.7 else gen.md_any(ctx.rng, 6) for _ in range(n_each)]
+    names = list(cfgs or PLUGIN_MODEL_CFGS)
+    if ctx.quick() and cfgs is None:
+        # every run: the shipped preset and the all-plugins pair, plus a seeded half of the single-plugin configurations
+        rest = [n for n in names if n not in ("preset", "all", "all-speedup")]
+        ctx.rng.shuffle(rest)
+        names = ["preset", "all", "all-speedup"] + rest[:8]
+    for name in names:
+        side = corr_model.Side(name)
+        docs = corr_model.inputs("doc", ctx.rng, n_each, 500, side.plugins)
         if extra_docs:
-            docs += list(extra_docs.get(plug, []))
+            for p in side.plugins:
+                docs += list(extra_docs.get(p, []))
         total += model_tie(ctx, docs, name, "doc")
+    ctx.cov["model_plugin_configurations"] = sorted(set(ctx.cov.get("model_plugin_configurations", [])) | set(names))
     return total
 
 
